@@ -1183,10 +1183,12 @@ ol, ul { padding-left: 2em; }
 
     def s_text_bookmark_ref(self, tag, attrs):
         """ Bookmark reference """
-        name = attrs[(TEXTNS,'ref-name')]
-        html_id = "#" + self.get_anchor(name)
+        name = attrs.get( (TEXTNS,'ref-name') )
         self.writedata()
-        self.opentag('a', {'href':html_id})
+        if name is None:
+            self.opentag('a', {}) # A reference that doesn't say to what
+        else:
+            self.opentag('a', {'href': "#" + self.get_anchor(name)})
         self.purgedata()
 
     def s_text_h(self, tag, attrs):
